@@ -35,6 +35,24 @@ def _names():
 MACROS, ENVS = _names()
 
 
+def _interesting():
+    """names whose text replacement is a callable or a %-format, or whose walker signature takes arguments"""
+    wdb = _lw_mod.get_default_latex_context_db()
+    tdb = _l2t_mod.get_default_latex_context_db()
+    out = []
+    for i, nm in enumerate(MACROS):
+        w = wdb.get_macro_spec(nm)
+        t = tdb.get_macro_spec(nm)
+        wargs = bool(w is not None and getattr(w, 'macroname', '') == nm and getattr(w, 'arguments_spec_list', None))
+        rep = getattr(t, 'simplify_repl', None) if (t is not None and getattr(t, 'macroname', '') == nm) else None
+        if wargs or callable(rep) or (isinstance(rep, str) and '%' in rep):
+            out.append(i)
+    return out
+
+
+INTERESTING = _interesting()
+
+
 def warmup():
     for o in OPTS.values():
         LatexNodes2Text(**o).latex_to_text('a \\textbf{b} $c$ %d\n\n \\begin{itemize}\\item x\\end{itemize}')
@@ -63,13 +81,17 @@ def body_total(s, optname):
 MACRO_TAILS = ['', '{}', '{}{}{}{}', '[]{}', '*{}{}', ' x', '{x}[y]{z}', '{', '[']
 
 
-def body_macro(k, lo, hi, optname):
-    """every well-formed (and truncated) use of the k-th macro name, lo <= k < hi, incl. as argument of other macros"""
+QUICK_TAILS = ['', '{}', '{}{}{}{}', '[]{}', ' x', '{']
+
+
+def body_macro(k, lo, hi, optname, idx=None, tails=None):
+    """every well-formed (and truncated) use of the k-th macro name, lo <= k < hi, incl. as argument of other macros;
+    idx: optional list mapping the selector to positions in MACROS (the 'interesting' subset)"""
     done = 0
     for i in range(lo, hi):
         if k == i:
-            nm = MACROS[i]
-            for t in MACRO_TAILS:
+            nm = MACROS[i if idx is None else INTERESTING[i]]
+            for t in (MACRO_TAILS if tails is None else QUICK_TAILS):
                 l2t(BS + nm + t, optname)
             l2t(BS + 'hat' + BS + nm, optname)
             l2t(BS + 'textbf' + BS + nm + ' a', optname)
@@ -116,22 +138,34 @@ def conditions(tier):
              ('math', '$?$$?'), ('acc', BS + "'?"), ('nl', 'a' + BS + BS + '?[?'), ('cmt', 'a%?\n?'), ('input', BS + 'input{?}'),
              ('sqrt', BS + 'sqrt[?]?'), ('title', BS + 'title?' + BS + 'maketitle')]
     for nm, sk in skels:
+        if quick:
+            sk = sk.replace('?', '\x00', 1).replace('?', 'x').replace('\x00', '?') if sk.count('?') > 1 else sk
         for o in (['default'] if quick else ['default', 'verb_strict', 'remove_source']):
             pre = ['len(s) == %d' % len(sk)] + ['s[%d] == chr(%d)' % (i, ord(ch)) for i, ch in enumerate(sk) if ch != '?']
             conds.append(Cond('skel_%s_%s' % (nm, o), 's: str', pre, 'body_total(s, %r)' % o, timeout=T, cost=3, twin=False,
                               smoke=[dict(s=sk.replace('?', c)) for c in ('x', '{', '}', '$', BS)]))
     # name sweep: every macro / environment name of both default databases (selector = symbolic integer)
-    step = 48 if quick else 24
-    for lo in range(0, len(MACROS), step):
-        hi = min(len(MACROS), lo + step)
-        for o in (['default'] if quick else opts):
-            conds.append(Cond('macros_%04d_%s' % (lo, o), 'k: int', ['%d <= k < %d' % (lo, hi)],
-                              'body_macro(k, %d, %d, %r)' % (lo, hi, o), timeout=T, cost=3, twin=False,
+    if quick:
+        step = 16
+        for lo in range(0, len(INTERESTING), step):
+            hi = min(len(INTERESTING), lo + step)
+            conds.append(Cond('imacros_%03d' % lo, 'k: int', ['%d <= k < %d' % (lo, hi)],
+                              "body_macro(k, %d, %d, 'default', True, True)" % (lo, hi), timeout=T, cost=3, twin=False,
                               smoke=[dict(k=lo), dict(k=hi - 1)],
-                              descr='macro names %s .. %s' % (MACROS[lo], MACROS[hi - 1])))
-    for lo in range(0, len(ENVS), 16):
-        hi = min(len(ENVS), lo + 16)
-        for o in (['default', 'verb_strict'] if quick else opts):
+                              descr='macro names with arguments or computed replacements: %s .. %s' % (
+                                  MACROS[INTERESTING[lo]], MACROS[INTERESTING[hi - 1]])))
+    else:
+        step = 24
+        for lo in range(0, len(MACROS), step):
+            hi = min(len(MACROS), lo + step)
+            for o in opts:
+                conds.append(Cond('macros_%04d_%s' % (lo, o), 'k: int', ['%d <= k < %d' % (lo, hi)],
+                                  'body_macro(k, %d, %d, %r)' % (lo, hi, o), timeout=T, cost=3, twin=False,
+                                  smoke=[dict(k=lo), dict(k=hi - 1)],
+                                  descr='macro names %s .. %s' % (MACROS[lo], MACROS[hi - 1])))
+    for lo in range(0, len(ENVS), 8):
+        hi = min(len(ENVS), lo + 8)
+        for o in (['verb_strict'] if quick else opts):
             conds.append(Cond('envs_%03d_%s' % (lo, o), 'k: int', ['%d <= k < %d' % (lo, hi)],
                               'body_env(k, %d, %d, %r)' % (lo, hi, o), timeout=T, cost=3, twin=False,
                               smoke=[dict(k=lo), dict(k=hi - 1)],
@@ -145,10 +179,11 @@ META = dict(
                'apply_simplify_repl/_groupnodecontents_to_text/node_arg_to_text/do_fill_text',
                'latex2text._defaultspecs (all replacement callables), latexwalker._defaultspecs (argument signatures)',
                'LatexWalker tolerant parsing underneath (see C06)'],
-    bounds=dict(quick='every Unicode string of length <= 2 under 3 option sets; 13 skeletons with free holes (default options); '
-                      'every macro name (%d) and environment name (%d) of the two default databases in 14 / 11 concrete uses each '
-                      '(empty and missing arguments, end of input, as argument of another macro, inside math), the name selected '
-                      'by a symbolic integer' % (len(MACROS), len(ENVS)),
+    bounds=dict(quick='every Unicode string of length <= 2 under 3 option sets; 13 skeletons with one free hole (default options); '
+                      'the %d macro names (of %d) whose walker signature takes arguments or whose text replacement is computed, in 11 '
+                      'concrete uses each, and every environment name (%d) in 11 uses (empty and missing arguments, end of input, as '
+                      'argument of another macro, inside math), the name selected by a symbolic integer' % (
+                          len(INTERESTING), len(MACROS), len(ENVS)),
                 thorough='length <= 3 under 6 option sets; name sweep under all 6 option sets'),
     stubs=['logging disabled', 'step budget on LatexTokenReader.peek_token stands for "bounded time"',
            'no input directory configured (\\input reads nothing)'],
